@@ -240,7 +240,11 @@ impl AsCborValue for Header {
                 ));
             }
         }
+        // Labels already emitted for the named fields also count as seen.
         let mut seen = BTreeSet::new();
+        for (label, _value) in map.iter() {
+            seen.insert(Label::from_cbor_value(label.clone())?);
+        }
         for (label, value) in self.rest.into_iter() {
             if seen.contains(&label) {
                 return Err(CoseError::DuplicateMapKey);
